@@ -131,6 +131,107 @@ def a_fragment_header_guard(prog):
     return True, "reassemble validates total in 1..=127 and seq < total before %d new / %d add_fragment call(s)" % (len(news), len(adds))
 
 
+
+def _ceil_helper_ok(g):
+    """g(a, b) returns a/b when a % b == 0 and a/b + 1 otherwise (b > 0)."""
+    from .. import symx
+    A, B = ("arg", 1), ("arg", 2)
+    FLOOR = ("div", A, B)
+    rets = []
+    for b in g.reachable:
+        for st in g.stmts(b):
+            if st["k"] == "assign" and st["lhs"] == [0]:
+                if st["rv"]["k"] != "use":
+                    return False, "result of %s is not floor or floor+1" % g.path
+                rets.append((b, symx.strip_chk(symx.expr(g, st["rv"]["a"]))))
+    if not rets:
+        return False, "%s has no result assignment" % g.path
+    # edges carrying `a % b > 0` / its negation, and `b > 0`
+    pos, neg = [], []
+    for (sb, tb, cop, a, b_) in _cmp_facts(g):
+        ea, eb = symx.strip_chk(symx.expr(g, a)), symx.strip_chk(symx.expr(g, b_))
+        if ea == ("rem", A, B) and eb[0] == "const":
+            c = eb[1]
+            if (cop == "Gt" and c == 0) or (cop == "Ne" and c == 0) or (cop == "Ge" and c == 1):
+                pos.append((sb, tb))
+            elif (cop == "Le" and c == 0) or (cop == "Eq" and c == 0) or (cop == "Lt" and c == 1):
+                neg.append((sb, tb))
+        if ea == B and eb[0] == "const" and ((cop == "Le" and eb[1] == 0) or (cop == "Eq" and eb[1] == 0) or (cop == "Lt" and eb[1] == 1)):
+            neg.append((sb, tb))     # b == 0 cannot happen after a / b
+
+    def reach(block_edges):
+        seen, dq = {0}, [0]
+        while dq:
+            x = dq.pop()
+            for y in g.succ[x]:
+                if (x, y) in block_edges or y in seen:
+                    continue
+                seen.add(y)
+                dq.append(y)
+        return seen
+    for b, e in rets:
+        if e == ("add", FLOOR, ("const", 1)) or e == ("add", ("const", 1), FLOOR):
+            if b in reach(set(pos)):
+                return False, "%s returns a/b + 1 on a path where a %% b may be 0" % g.path
+        elif e == FLOOR:
+            if b in reach(set(neg)):
+                return False, "%s returns a/b on a path where a %% b may be non-zero" % g.path
+        elif e in (("div", ("sub", ("add", A, B), ("const", 1)), B), ("div", ("add", A, ("sub", B, ("const", 1))), B)):
+            pass
+        else:
+            return False, "%s returns %s, which is neither floor, floor+1 nor (a+b-1)/b" % (g.path, symx.show(e))
+    return True, "%s is ceiling division" % g.path
+
+
+def a_fragment_count_ceil(prog):
+    """announced fragment count = ceil(remaining / (mtu - H)): the number of pieces MakeFragments::next emits"""
+    from .. import symx
+    f = prog.one(r"^common::fragment::MakeFragments::<T>::new$")
+    nx = prog.find(r"MakeFragments<T> as core::iter::traits::iterator::Iterator>::next$", "redproxy_rs")
+    if len(nx) != 1:
+        return False, "MakeFragments::next not found"
+    nx = nx[0]
+    adv = [c for c in nx.calls if re.search(r"BufMut::advance_mut$", c.path or "")]
+    W = {"u8": 1, "u16": 2, "u32": 4}
+    hdr = sum(W[re.search(r"put_(\w+)$", c.path).group(1)] for c in nx.calls
+              if re.search(r"BufMut::put_(u8|u16|u32)$", c.path or "") and adv and nx.dominates(c.bb, adv[0].bb))
+    total = None
+    for b in f.reachable:
+        for st in f.stmts(b):
+            if st["k"] == "assign" and st["rv"]["k"] == "agg" and st["rv"].get("def", "").endswith("fragment::MakeFragments"):
+                for n, o in zip(st["rv"]["fields"], st["rv"]["ops"]):
+                    if n == "total":
+                        total = symx.strip_chk(symx.expr(f, o))
+    if total is None:
+        return False, "MakeFragments::new no longer initialises the field `total`"
+    a = b_ = None
+    if total[0] == "call" and len(total[2]) == 2:
+        callee = total[1]
+        if re.search(r"num::<impl usize>::div_ceil$", callee):
+            a, b_ = total[2]
+        else:
+            gs = [g for g in prog.fns.values() if g.crate == "redproxy_rs" and g.path == callee]
+            if len(gs) != 1:
+                return False, "fragment count is computed by %s, which is not a known ceiling division" % callee
+            ok, why = _ceil_helper_ok(gs[0])
+            if not ok:
+                return False, why
+            a, b_ = total[2]
+    elif total[0] == "div" and total[1][0] in ("sub", "add"):
+        num, den = total[1], total[2]
+        if num == ("sub", ("add", num[1][1] if num[1][0] == "add" else None, den), ("const", 1)) and num[1][0] == "add":
+            a, b_ = num[1][1], den
+        elif num[0] == "add" and num[2] == ("sub", den, ("const", 1)):
+            a, b_ = num[1], den
+    if a is None:
+        return False, "the announced fragment count is %s, not ceil(remaining / (mtu - %d)): for some lengths it differs from the number of " \
+                      "fragments next() emits, so the receiver waits for a fragment that is never sent (or completes early)" % (symx.show(total), hdr)
+    if not (a[0] == "call" and re.search(r"Buf::remaining$", a[1])):
+        return False, "fragment count numerator is %s, not buf.remaining()" % symx.show(a)
+    if not (b_[0] == "sub" and b_[2] == ("const", hdr) and b_[1][0] == "arg"):
+        return False, "fragment count divisor is %s, not mtu - %d (the per-fragment payload budget of next())" % (symx.show(b_), hdr)
+    return True, "total = ceil(%s / %s), header %d bytes" % (symx.show(a), symx.show(b_), hdr)
+
 # --------------------------------------------------------------------------- socks / target
 
 def a_socks_client_method_guard(prog):
